@@ -1,4 +1,4 @@
-from mindsdb_sql.parser.utils import indent
+from mindsdb_sql.parser.utils import indent, params_to_string
 from mindsdb_sql.parser.ast.base import ASTNode
 
 
@@ -31,7 +31,8 @@ class Evaluate(ASTNode):
         inner_query_str = self.query_str
         out_str = f'EVALUATE {self.name.to_string()} from ({inner_query_str})'
         if self.using is not None:
-            using_str = ", ".join([f"{k}={v}" for k, v in self.using.items()])
+            # printed like every other USING list (strings quoted, NULL, typed objects and identifiers as SQL)
+            using_str = params_to_string(self.using)
             out_str = f'{out_str} USING {using_str}'
         out_str += ';'
         return out_str
